@@ -262,6 +262,13 @@ func run(id, tier string) int {
 			fmt.Printf("ALSO-SEEN property=%s finding=%s cases=%d first=%s (not separately confirmed)\n", id, v.Finding, total.ViolCount[v.Finding], v.Case)
 			continue
 		}
+		if strings.Contains(v.Finding, "/harness/") {
+			// the harness reporting trouble of its own (a fixture that does not build, a schedule prefix that does not replay): never a
+			// property violation; the run cannot be called a pass either
+			fmt.Fprintf(os.Stderr, "HARNESS-ERROR: %s (case %q): %s\n", v.Finding, v.Case, tail(v.Detail, 800))
+			unconfirmed++
+			continue
+		}
 		if v.Finding == "panic@unknown" {
 			// a panic whose stack holds no frame of the library is the harness's own: never reported as a property violation
 			fmt.Fprintf(os.Stderr, "HARNESS-ERROR: case %q panicked outside the library:\n%s\n", v.Case, tail(v.Detail, 1500))
